@@ -125,6 +125,12 @@ def judge_c06(sc, gr):
         return [("C06/stray-exception", out.error, "a result or the no-solution error",
                  "solve() raised %s on a well-formed stopping game" % out.error)]
     if out.kind == "nosol":
+        if not must_fail and gr.prune and 0 < v0 <= sc.eps_reach():
+            # KF-C06-1: the exact value of the initial state is positive but not larger than the convergence tolerance, and the
+            # iteration stopped (largest change <= threshold) before it propagated to state 0, which still reports exactly 0
+            return [("KF-C06-1", out.error, "a complete result",
+                     "no-solution error although the exact value of state 0 is %s (%.3g, below the convergence tolerance %.3g)"
+                     % (v0, float(v0), sc.eps_reach()))]
         if not must_fail:
             return [("C06/spurious-no-solution", out.error, "a complete result",
                      "no-solution error although %s" % ("pruning is off" if not gr.prune else "the exact value of state 0 is %s" % v0))]
@@ -246,9 +252,13 @@ def judge_c04(sc, strategies, probs, where="solve()[1]"):
 
 # ------------------------------------------------------------------------------------------------- C03
 
-def _rows_equal(exp, got):
+def _rows_equal(exp, got, surviving_mass=1.0):
+    """position-by-position comparison; probabilities within float round-off of the documented formula p / (1 - removed):
+    relative 1e-12 plus a few units in the last place of 1 amplified by 1 / (surviving mass) - the subtraction 1 - removed
+    loses that much when almost everything is removed (4e-7 / (1 - 0.9999996) = 0.99999999997)"""
     if len(exp) != len(got):
         return False
+    tol = 1e-12 + 8 * 2.0 ** -53 / max(float(surviving_mass), 1e-300)
     for a, b in zip(exp, got):
         if a[1] != b[1]:
             return False
@@ -257,9 +267,15 @@ def _rows_equal(exp, got):
                 return False
         else:
             x, y = float(a[0]), float(b[0])
-            if abs(x - y) > 1e-12 * max(1.0, abs(x)):
+            if abs(x - y) > tol * max(1.0, abs(x)):
                 return False
     return True
+
+
+def _surviving_mass(sc, s, probs, prune):
+    if not prune or sc.players[s] != PR:
+        return 1.0
+    return sum((p for p, t in sc.etl[s] if probs[t] != 0), F(0)) or 1.0
 
 
 def judge_c03(sc, gr):
@@ -283,14 +299,14 @@ def judge_c03(sc, gr):
                           "state %d (%s) keeps %r into a state reported with probability 0" % (s, who, show(dead))))
                 break
         if s in R or not gr.prune:
-            if not _rows_equal(ctl[s], got):
+            if not _rows_equal(ctl[s], got, _surviving_mass(sc, s, probs, gr.prune)):
                 f.append(("C03/wrong-list", show(got), show(ctl[s]),
                           "state %d (%s), reachable in the conditioned game, has transitions %r, prescribed %r"
                           % (s, who, show(got), show(ctl[s]))))
                 break
         else:
             # not reachable from the initial state: may additionally have been emptied, nothing else
-            if got and not _rows_equal(ctl[s], got):
+            if got and not _rows_equal(ctl[s], got, _surviving_mass(sc, s, probs, gr.prune)):
                 f.append(("C03/wrong-list-unreachable", show(got), show(ctl[s]),
                           "state %d (%s), unreachable in the conditioned game, has transitions %r: neither emptied nor the prescribed %r"
                           % (s, who, show(got), show(ctl[s]))))
@@ -301,7 +317,9 @@ def judge_c03(sc, gr):
 # ------------------------------------------------------------------------------------------------- C02
 
 def reward_eps(AR, rewards, value):
-    return DELTA * (1 + float(AR)) * max(1, max(rewards)) + 1e-9 * abs(float(value))
+    """|v - x| <= delta * A_R holds whatever the size of the rewards (the stopping rule bounds the absolute change of a sweep);
+    the second term is float round-off, relative to the value"""
+    return DELTA * (1 + float(AR)) + 1e-9 * abs(float(value))
 
 
 def judge_c02(sc, gr):
